@@ -24,7 +24,10 @@ import (
 //   san   <s> <table>    | GoSanitized      (table = unicode class of every non-ASCII rune of s)
 //   unique ...           | see fam_names_unique.go
 
-func init() { Register("names", famNames) }
+func init() {
+	Register("names", famNames)
+	Register("names_rand", famNamesRand) // random part only: shards of the thorough tier do not repeat the exhaustive part
+}
 
 // representatives of every byte class the functions distinguish (lower, upper,
 // digit, '_', '.', other) with two members per class, plus the letters that
@@ -263,11 +266,12 @@ func famNames(c *Ctx) {
 		namesSan(c, k)
 		namesPure(c, k)
 	}
-	// exhaustive: class representatives up to length 5 (6 thorough); every
-	// full-name byte up to length 3 (4 thorough)
+	// exhaustive: class representatives up to length 5 (6 thorough: 1.1e6 strings);
+	// every full-name byte up to length 3 (64^4 more strings would add nothing the
+	// class representatives do not cover and cost 1.4 GB of case file)
 	l1, l2 := 5, 3
 	if c.Tier == "thorough" {
-		l1, l2 = 6, 4
+		l1 = 6
 	}
 	namesEnum(namesClassAlphabet, l1, func(s string) {
 		namesPure(c, s)
@@ -276,8 +280,23 @@ func famNames(c *Ctx) {
 		}
 	})
 	namesEnum(namesIdentAlphabet, l2, func(s string) { namesPure(c, s) })
-	// random
-	for i := 0; i < c.N; i++ {
+	namesRandom(c, c.N)
+	namesUniqueCorpus(c)
+	namesUniqueRandom(c, c.N/8)
+}
+
+func famNamesRand(c *Ctx) {
+	defer func() {
+		if r := recover(); r != nil {
+			c.PropFail("C42", fmt.Sprintf("panic: %v", r))
+		}
+	}()
+	namesRandom(c, c.N)
+	namesUniqueRandom(c, c.N/8)
+}
+
+func namesRandom(c *Ctx, n int) {
+	for i := 0; i < n; i++ {
 		switch c.Intn(3) {
 		case 0:
 			namesPure(c, namesRandIdentish(c))
@@ -289,5 +308,4 @@ func famNames(c *Ctx) {
 			}
 		}
 	}
-	namesUnique(c)
 }
